@@ -10,6 +10,13 @@ Targets (each regenerated on every run of the checks that use them; the output d
                                     -> lean/PygyroVerif/Generated/BlocksGen.lean
         the scalar expressions for the start index of rank r, the block length and the maximum block length.
 
+  pygyro/splines/spline_eval_funcs.py   (targets findspan | basisfuns | eval1d)
+        nu_find_span                -> lean/PygyroVerif/Generated/FindSpanGen.lean      (part 1 machinery, Props/C07Gen.lean)
+        nu_basis_funs               -> lean/PygyroVerif/Generated/BasisFunsGen.lean     (part 4: float arrays that are written =
+        nu_find_span, nu_basis_funs_1st_der, nu_eval_spline_1d_scalar                    functional update of `Nat → Rat`, `for .. in
+                                    -> lean/PygyroVerif/Generated/EvalSplineGen.lean     range`, `empty(n)` = arbitrary contents `U`,
+        calls between the kernels; Props/C07Gen2.lean proves the generated functions equal Model/BSpline.lean)
+
 Props/C20Gen.lean and Props/C02Gen.lean prove that the generated definitions equal the hand-written models the other
 theorems are about (so those theorems hold of what the source says *now*).  The translator REFUSES (exit status 3, no Lean
 file left behind) on any construct outside its subset (subtraction on naturals, float functions, unknown calls, other
@@ -22,7 +29,7 @@ Semantics chosen (recorded in the header of every generated file):
   * `/` (true division, binary64 in Python) is exact division in `Rat`; variables that receive such values are `Rat`.
   * `lst[i]` on a list parameter is `lst.getD i 0` (Python raises IndexError when too short).
 
-Standard library only.   usage: translate_pure.py [--repo /repo] [--out DIR] [--quiet]
+Standard library only.   usage: translate_pure.py [--repo /repo] [--out DIR] [--quiet] [--only TARGET]
 """
 import argparse
 import ast
@@ -663,19 +670,405 @@ def translate_find_span(repo):
     return head + body + '\nend PygyroVerif.Gen.FindSpan\n'
 
 
+# =====================================================================================================================
+# part 4: the general (non-uniform) spline kernels: float arrays that are written, `for ... in range`, calls between kernels
+
+class ArrayFuncTranslator(FuncTranslator):
+    """FuncTranslator + writes to float arrays (`a[i] = v` is a functional update of `Nat → Rat`), `for v in range(..)` (a
+    structurally recursive function over the number of iterations left), local arrays `a = empty(n)` (contents = the parameter `U`,
+    'whatever the memory holds'), float literals, unary minus and `-` on floats, calls of earlier kernels (as a statement or as
+    `v = f(..)`; array arguments are passed by reference: written arrays are copied back from the callee's final state).
+    The outcome of a call carries the final record of locals: `.ret σ` (`σ.ret_` is the returned value, if any)."""
+
+    DECORATORS = ('pure', 'stack_array')
+
+    def __init__(self, fname, namespace):
+        super().__init__(fname, namespace, allow_sub=True)
+        self.sigs = {}            # function name -> (list of (param, type), return type or None)
+        self.final = set()
+        self.ret_type = None
+        self.all_loops = []
+
+    # ---- typing -----------------------------------------------------------------------------------------------
+    def infer_types(self, fn):
+        types, params, self.final = {}, [], set()
+        if fn.args.vararg or fn.args.kwarg or fn.args.kwonlyargs or fn.args.posonlyargs:
+            self.refuse(fn, 'only plain positional parameters')
+        for d in fn.decorator_list:
+            name = d.id if isinstance(d, ast.Name) else (d.func.id if isinstance(d, ast.Call) and isinstance(d.func, ast.Name) else None)
+            if name not in self.DECORATORS:
+                self.refuse(d, 'decorator outside the subset')
+        for a in fn.args.args:
+            ann = a.annotation.id if isinstance(a.annotation, ast.Name) else (
+                a.annotation.value if isinstance(a.annotation, ast.Constant) and isinstance(a.annotation.value, str) else None)
+            if ann == 'int':
+                types[a.arg] = 'Nat'
+            elif ann == 'float':
+                types[a.arg] = 'Rat'
+            elif ann in ('Final[float[:]]', 'float[:]'):
+                types[a.arg] = 'Nat → Rat'
+                types[a.arg + '_len'] = 'Nat'
+                if ann.startswith('Final'):
+                    self.final.add(a.arg)
+            else:
+                self.refuse(a, 'parameter %s: annotation must be int, float or a 1-D float array' % a.arg)
+            params.append(a.arg)
+        r = fn.returns
+        rann = None if r is None else (r.id if isinstance(r, ast.Name) else (r.value if isinstance(r, ast.Constant) else '?'))
+        if rann not in (None, 'int', 'float'):
+            self.refuse(fn, 'return annotation must be int or float')
+        self.ret_type = {None: None, 'int': 'Nat', 'float': 'Rat'}[rann]
+        assigned, order = [], []
+        nodes = [n for n in ast.walk(fn) if isinstance(n, (ast.Assign, ast.AugAssign, ast.For))]
+        nodes.sort(key=lambda n: (n.lineno, n.col_offset))
+        for n in nodes:
+            if isinstance(n, ast.For):
+                if not isinstance(n.target, ast.Name):
+                    self.refuse(n, 'the loop variable must be a plain name')
+                v = n.target.id
+                if types.setdefault(v, 'Nat') != 'Nat' or v in params:
+                    self.refuse(n, 'loop variable %s is also a parameter or a non-integer' % v)
+                order.append(v)
+                continue
+            if isinstance(n, ast.Assign) and len(n.targets) != 1:
+                self.refuse(n, 'chained assignment')
+            tg = n.targets[0] if isinstance(n, ast.Assign) else n.target
+            if isinstance(tg, ast.Subscript):
+                continue                                    # checked where the statement is translated
+            if not isinstance(tg, ast.Name):
+                self.refuse(n, 'only plain names and array elements may be assigned')
+            v = tg.id
+            if isinstance(n, ast.Assign) and self.is_empty_call(n.value):
+                if v in types and types[v] != 'Nat → Rat' or v in params:
+                    self.refuse(n, '%s is both an array and something else' % v)
+                types[v] = 'Nat → Rat'
+                types[v + '_len'] = 'Nat'
+                order += [v, v + '_len']
+                continue
+            if types.get(v) == 'Nat → Rat':
+                self.refuse(n, 'array %s re-bound to a value' % v)
+            if v in params:
+                self.refuse(n, 'assignment to the parameter %s' % v)
+            types.setdefault(v, 'Nat')
+            assigned.append((v, n))
+            order.append(v)
+        changed = True
+        while changed:
+            changed = False
+            for v, n in assigned:
+                if types[v] == 'Nat' and self.is_rat(n.value, types):
+                    types[v] = 'Rat'
+                    changed = True
+        for n in nodes:
+            if isinstance(n, ast.For) and types[n.target.id] != 'Nat':
+                self.refuse(n, 'loop variable %s also receives a float' % n.target.id)
+        for v in list(types):
+            if v.endswith('_') or v in ('U', 'F', 'σ', 'τ'):
+                self.refuse(fn, 'local name %s clashes with the names the translation uses' % v)
+        params = [q for p_ in params for q in ([p_, p_ + '_len'] if types[p_] == 'Nat → Rat' else [p_])]
+        seen, ordered = set(), []
+        for v in params + order:
+            if v not in seen:
+                seen.add(v)
+                ordered.append(v)
+        if self.ret_type:
+            types['ret_'] = self.ret_type
+            ordered.append('ret_')
+        return params, ordered, types
+
+    def is_empty_call(self, e):
+        return isinstance(e, ast.Call) and isinstance(e.func, ast.Name) and e.func.id == 'empty'
+
+    def is_rat(self, e, types):
+        """does the expression denote a float?  (does not look inside calls and index expressions)"""
+        if isinstance(e, ast.Constant):
+            return isinstance(e.value, float)
+        if isinstance(e, ast.Name):
+            return types.get(e.id) == 'Rat'
+        if isinstance(e, ast.Subscript):
+            return isinstance(e.value, ast.Name) and types.get(e.value.id) == 'Nat → Rat'
+        if isinstance(e, ast.Call):
+            if isinstance(e.func, ast.Name) and e.func.id in ('min', 'max'):
+                return any(self.is_rat(a, types) for a in e.args)
+            return isinstance(e.func, ast.Name) and self.sigs.get(e.func.id, (None, None))[1] == 'Rat'
+        if isinstance(e, ast.BinOp):
+            return isinstance(e.op, ast.Div) or self.is_rat(e.left, types) or self.is_rat(e.right, types)
+        if isinstance(e, ast.UnaryOp):
+            return self.is_rat(e.operand, types)
+        return False
+
+    # ---- expressions ------------------------------------------------------------------------------------------
+    def expr(self, e, types, want):
+        if isinstance(e, ast.Constant) and isinstance(e.value, float):
+            import fractions
+            import math
+            if want != 'Rat':
+                self.refuse(e, 'float literal used as an integer')
+            if not math.isfinite(e.value) or e.value < 0:
+                self.refuse(e, 'float literal outside the subset')
+            q = fractions.Fraction(e.value)              # the exact value of the binary64 literal
+            return '(%d : Rat)' % q.numerator if q.denominator == 1 else '((%d : Rat) / (%d : Rat))' % (q.numerator, q.denominator)
+        if isinstance(e, ast.UnaryOp) and isinstance(e.op, ast.USub):
+            if want != 'Rat' or not self.is_rat(e.operand, types):
+                self.refuse(e, 'unary minus on an integer')
+            return '(-%s)' % self.expr(e.operand, types, 'Rat')
+        if isinstance(e, ast.BinOp) and isinstance(e.op, ast.Sub) and want == 'Nat' and self.is_rat(e, types):
+            self.refuse(e, 'float used where an integer is needed')
+        if isinstance(e, ast.Name) and types.get(e.id) == 'Nat → Rat':
+            self.refuse(e, 'array %s used as a number' % e.id)
+        return super().expr(e, types, want)
+
+    # ---- statements -------------------------------------------------------------------------------------------
+    def call_stmt(self, s, c, target, types, rest, k_end, k_break, ind, fuel):
+        pad = '  ' * ind
+        if c.keywords:
+            self.refuse(s, 'keyword arguments')
+        sig, rty = self.sigs[c.func.id]
+        if len(sig) != len(c.args):
+            self.refuse(s, 'wrong number of arguments')
+        args, back = [], []
+        for (pn, pt, pfinal), a in zip(sig, c.args):
+            if pt == 'Nat → Rat':
+                if not (isinstance(a, ast.Name) and types.get(a.id) == 'Nat → Rat'):
+                    self.refuse(s, 'an array argument must be the name of an array')
+                if not pfinal:
+                    if a.id in self.final:
+                        self.refuse(s, 'Final array %s passed to a parameter that is written' % a.id)
+                    if a.id in [b for b, _ in back]:
+                        self.refuse(s, 'the same array passed twice to parameters that are written')
+                    back.append((a.id, pn))
+                args.append('σ.%s σ.%s_len' % (a.id, a.id))
+            else:
+                args.append(self.expr(a, types, pt))
+        # aliasing: a written array must not also be passed as another argument
+        names = [a.id for a in c.args if isinstance(a, ast.Name) and types.get(a.id) == 'Nat → Rat']
+        for b, _ in back:
+            if names.count(b) > 1:
+                self.refuse(s, 'array %s passed twice, once to a parameter that is written' % b)
+        upd = ['%s := τ.%s' % (b, pn) for b, pn in back]
+        if target is not None:
+            if rty is None:
+                self.refuse(s, '%s returns nothing' % c.func.id)
+            if types.get(target) != rty:
+                self.refuse(s, '%s receives a value of another type' % target)
+            upd.append('%s := τ.ret_' % target)
+        after = self.block(rest, types, k_end, k_break, ind + 1, fuel)
+        if upd:
+            after = '%s  let σ : St := { σ with %s }\n%s' % (pad, ', '.join(upd), after)
+        return '%smatch %s_.run U F %s with\n%s| .ret τ =>\n%s\n%s| .raised e => %s\n%s| .outOfFuel => %s' % (
+            pad, c.func.id, ' '.join(args), pad, after, pad, self.wrap('.raised e'), pad, self.wrap('.outOfFuel'))
+
+    def block(self, stmts, types, k_end, k_break, ind, fuel):
+        pad = '  ' * ind
+        if not stmts:
+            return pad + k_end
+        s, rest = stmts[0], stmts[1:]
+        is_known = lambda v: isinstance(v, ast.Call) and isinstance(v.func, ast.Name) and v.func.id in self.sigs  # noqa: E731
+        if isinstance(s, ast.Expr) and is_known(s.value):
+            return self.call_stmt(s, s.value, None, types, rest, k_end, k_break, ind, fuel)
+        if isinstance(s, ast.Assign) and isinstance(s.targets[0], ast.Name) and is_known(s.value):
+            return self.call_stmt(s, s.value, s.targets[0].id, types, rest, k_end, k_break, ind, fuel)
+        if isinstance(s, ast.Assign) and isinstance(s.targets[0], ast.Name) and self.is_empty_call(s.value):
+            if not self.numpy_empty:
+                self.refuse(s, '`empty` is not numpy.empty here')
+            c = s.value
+            if len(c.args) != 1 or c.keywords:
+                self.refuse(s, 'empty(n) with one positional argument only')
+            v = s.targets[0].id
+            return '%slet σ : St := { σ with %s := U, %s_len := %s }\n%s' % (
+                pad, v, v, self.expr(c.args[0], types, 'Nat'), self.block(rest, types, k_end, k_break, ind, fuel))
+        if isinstance(s, ast.Assign) and isinstance(s.targets[0], ast.Subscript):
+            tg = s.targets[0]
+            if not (isinstance(tg.value, ast.Name) and types.get(tg.value.id) == 'Nat → Rat'):
+                self.refuse(s, 'element assignment to something that is not a 1-D float array')
+            if tg.value.id in self.final:
+                self.refuse(s, 'write to the Final array %s' % tg.value.id)
+            a = tg.value.id
+            return '%slet σ : St := { σ with %s := fun k_ => if k_ = %s then %s else σ.%s k_ }\n%s' % (
+                pad, a, self.expr(tg.slice, types, 'Nat'), self.expr(s.value, types, 'Rat'), a,
+                self.block(rest, types, k_end, k_break, ind, fuel))
+        if isinstance(s, ast.AugAssign) and not isinstance(s.target, ast.Name):
+            self.refuse(s, 'augmented assignment to an array element')
+        if isinstance(s, ast.If) and any(
+                isinstance(n, (ast.For, ast.While)) or is_known(n) for t in rest for n in ast.walk(t)):
+            # the statements after the `if` start loops or calls: do not copy them into both branches; the `if` yields the state
+            # after it (or the outcome that ends the call) and the rest is translated once
+            if any(isinstance(n, (ast.Break, ast.Continue)) for t in s.body + s.orelse for n in ast.walk(t)):
+                self.refuse(s, '`if` containing break/continue and followed by a loop or a call')
+            was_top, self.top = self.top, False
+            thn = self.block(s.body, types, '.ok σ', None, ind + 2, fuel)
+            els = self.block(s.orelse, types, '.ok σ', None, ind + 2, fuel)
+            self.top = was_top
+            after = self.block(rest, types, k_end, k_break, ind + 1, fuel)
+            return ('%slet r_ : Res St :=\n%s  if %s then\n%s\n%s  else\n%s\n%smatch r_ with\n%s| .ok σ =>\n%s\n%s| .done o => %s'
+                    % (pad, pad, self.cond(s.test, types), thn, pad, els, pad, pad, after, pad, self.wrap('o', paren=False)))
+        if isinstance(s, ast.Return):
+            if s.value is None:
+                if self.ret_type:
+                    self.refuse(s, 'bare return in a function that returns a value')
+                return pad + self.wrap('.ret σ')
+            if not self.ret_type:
+                self.refuse(s, 'return of a value from a function without a return annotation')
+            if self.ret_type == 'Nat' and self.is_rat(s.value, types):
+                self.refuse(s, 'float returned as int')
+            return pad + self.wrap('.ret { σ with ret_ := %s }' % self.expr(s.value, types, self.ret_type))
+        if isinstance(s, ast.For):
+            if s.orelse:
+                self.refuse(s, 'for-else')
+            it = s.iter
+            if not (isinstance(it, ast.Call) and isinstance(it.func, ast.Name) and it.func.id == 'range'
+                    and not it.keywords and len(it.args) in (1, 2)):
+                self.refuse(s, 'only `for v in range(stop)` / `range(start, stop)`')
+            start = '(0 : Nat)' if len(it.args) == 1 else self.expr(it.args[0], types, 'Nat')
+            stop = self.expr(it.args[-1], types, 'Nat')
+            for a in it.args:
+                if self.is_rat(a, types):
+                    self.refuse(s, 'float in range()')
+            v = s.target.id
+            name = 'loop%d' % (len(self.loops) + 1)
+            self.loops.append(None)
+            slot = len(self.loops) - 1
+            was_top, self.top = self.top, False
+            body = self.block(s.body, types, '%s U F n (i + 1) σ' % name, '.ok σ', 3, 'F')
+            self.top = was_top
+            self.loops[slot] = (
+                '/-- %s:%d  `for %s in %s:` — `n` iterations are left, `i` is the next value of `%s`; carried state: all locals -/\n'
+                'def %s (U : Nat → Rat) (F : Nat) : Nat → Nat → St → Res St\n'
+                '  | 0, _, σ => .ok σ\n'
+                '  | n+1, i, σ =>\n'
+                '      let σ : St := { σ with %s := i }\n%s\n' % (self.fname, s.lineno, v, ast.unparse(it), v, name, v, body))
+            after = self.block(rest, types, k_end, k_break, ind + 1, fuel)
+            return '%smatch %s U F (%s - %s) %s σ with\n%s| .ok σ =>\n%s\n%s| .done o => %s' % (
+                pad, name, stop, start, start, pad, after, pad, self.wrap('o', paren=False))
+        if isinstance(s, ast.While):
+            if s.orelse:
+                self.refuse(s, 'while-else')
+            name = 'loop%d' % (len(self.loops) + 1)
+            self.loops.append(None)
+            slot = len(self.loops) - 1
+            was_top, self.top = self.top, False
+            body = self.block(s.body, types, '%s U F f σ' % name, '.ok σ', 3, 'F')
+            self.top = was_top
+            self.loops[slot] = (
+                '/-- %s:%d  `while %s:` — carried state: all locals; `F` is the fuel handed to loops started in the body -/\n'
+                'def %s (U : Nat → Rat) (F : Nat) : Nat → St → Res St\n'
+                '  | 0, _ => .done .outOfFuel\n'
+                '  | f+1, σ =>\n'
+                '    if %s then\n%s\n'
+                '    else .ok σ\n' % (self.fname, s.lineno, ast.unparse(s.test), name, self.cond(s.test, types), body))
+            after = self.block(rest, types, k_end, k_break, ind + 1, fuel)
+            return '%smatch %s U F %s σ with\n%s| .ok σ =>\n%s\n%s| .done o => %s' % (
+                pad, name, fuel, pad, after, pad, self.wrap('o', paren=False))
+        if isinstance(s, ast.Assign) and not isinstance(s.targets[0], ast.Name):
+            self.refuse(s, 'assignment target outside the subset')
+        if isinstance(s, (ast.Assign, ast.AugAssign)):
+            v = s.targets[0].id if isinstance(s, ast.Assign) else s.target.id
+            if types.get(v) not in ('Nat', 'Rat'):
+                self.refuse(s, 'assignment to %s' % v)
+            if types[v] == 'Nat' and self.is_rat(s.value, types):
+                self.refuse(s, 'float assigned to the integer %s' % v)
+        if isinstance(s, ast.Raise) and s.exc is None:
+            self.refuse(s, 'bare raise')
+        return super().block(stmts, types, k_end, k_break, ind, fuel)
+
+    def function(self, fn):
+        params, order, types = self.infer_types(fn)
+        self.loops = []
+        self.top = True
+        body = self.block(fn.body, types, '.ret σ', None, 1, 'F')
+        for i in range(len(self.loops) - 1, -1, -1):      # longer names first (loop10 before loop1)
+            old, new = 'loop%d ' % (i + 1), '%s_loop%d ' % (fn.name, i + 1)
+            body = body.replace(old, new)
+            self.loops = [t.replace(old, new) for t in self.loops]
+        loops = self.loops[::-1]                           # inner loops are created after the loop that contains them
+        dflt = {'Nat → Rat': 'fun _ => 0'}
+        fields = '\n'.join('  %s : %s := %s' % (v, types[v], dflt.get(types[v], '0')) for v in order)
+        init = ', '.join('%s := %s' % (p, p) for p in params)
+        sig = ' '.join('(%s : %s)' % (p, types[p]) for p in params)
+        self.sigs[fn.name] = ([(a.arg, types[a.arg], a.arg in self.final) for a in fn.args.args], self.ret_type)
+        return ('namespace %s_\n/-- all local variables of `%s` (%s:%d)%s -/\nstructure St where\n%s\n\n%s\n'
+                '/-- `%s(%s)`; `U` = contents of memory obtained with `empty`, `F` = fuel for every `while` -/\n'
+                'def run (U : Nat → Rat) (F : Nat) %s : Out St :=\n  let σ : St := { %s }\n%s\nend %s_\n'
+                % (fn.name, fn.name, self.fname, fn.lineno, '; `ret_` is the returned value' if self.ret_type else '', fields,
+                   '\n'.join(loops), fn.name, ', '.join(params), sig, init, body, fn.name))
+
+
+SPLINE_REL = 'pygyro/splines/spline_eval_funcs.py'
+SPLINE_SEMANTICS = (
+    'Shallow embedding: `for v in range(a, b)` is a structurally recursive function over the number `b - a` of iterations left (the bounds are\n'
+    'evaluated once, as in Python), `while` a fuel-recursive one, both over the record `St` of all locals.  A float array is `Nat → Rat` with its\n'
+    'length in `<name>_len`; `a[i] = v` is the functional update; index bounds and Python\'s negative indices are NOT modelled.  `empty(n)` is the\n'
+    'parameter `U` (arbitrary contents).  Floats are exact rationals (`/` is exact division, x/0 = 0); ints are naturals and `-` on them is truncated\n'
+    'subtraction.  A call passes arrays by reference: the arrays the callee may write are copied back from its final state.  Core Lean only.\n')
+SPLINE_TYPES = ('/-- outcome of a call: `return` / end of the body with the final locals `s`, `raise`, or the model artefact `outOfFuel` -/\n'
+                'inductive Out (α : Type) where\n  | ret (s : α)\n  | raised (exc : String)\n  | outOfFuel\n\n'
+                '/-- outcome of a loop: left normally with state `s` (also by `break`), or the call is over -/\n'
+                'inductive Res (α : Type) where\n  | ok (s : α)\n  | done (o : Out α)\n\n')
+
+
+def spline_functions(repo, names):
+    """the source, the translator and the FunctionDef nodes of the requested kernels (in the order given: callees first)"""
+    src = open(os.path.join(repo, SPLINE_REL)).read()
+    tree = ast.parse(src)
+    tr = ArrayFuncTranslator(SPLINE_REL, '')
+    bound = []          # everything that binds the name `empty` anywhere in the module
+    for n in ast.walk(tree):
+        if isinstance(n, (ast.Import, ast.ImportFrom)):
+            bound += [(n, a) for a in n.names if (a.asname or a.name.split('.')[0]) == 'empty']
+        elif isinstance(n, (ast.FunctionDef, ast.ClassDef)) and n.name == 'empty':
+            bound.append((n, None))
+        elif isinstance(n, ast.Name) and n.id == 'empty' and isinstance(n.ctx, (ast.Store, ast.Del)):
+            bound.append((n, None))
+        elif isinstance(n, ast.arg) and n.arg == 'empty':
+            bound.append((n, None))
+    tr.numpy_empty = (len(bound) == 1 and isinstance(bound[0][0], ast.ImportFrom) and bound[0][0].module == 'numpy'
+                      and bound[0][0].level == 0 and bound[0][1].name == 'empty' and bound[0][0] in tree.body)
+    fns = []
+    for nm in names:
+        f = [n for n in tree.body if isinstance(n, ast.FunctionDef) and n.name == nm]
+        if len(f) != 1:
+            raise Refuse(tree, '%s not found exactly once' % nm, SPLINE_REL)
+        fns.append(f[0])
+    sha = hashlib.sha256('\n'.join(ast.get_source_segment(src, f) or '' for f in fns).encode()).hexdigest()[:16]
+    return tr, fns, sha
+
+
+def translate_basis_funs(repo):
+    """pygyro/splines/spline_eval_funcs.py: `nu_basis_funs` (Algorithm A2.2 with the left/right arrays)"""
+    tr, fns, sha = spline_functions(repo, ['nu_basis_funs'])
+    body = tr.function(fns[0])
+    head = ('/-\nGENERATED by harness/translate_pure.py from %s, function nu_basis_funs (sha256 of its source %s) — do not edit.\n%s-/\n'
+            'set_option linter.unusedVariables false\nnamespace PygyroVerif.Gen.BasisFuns\n\n%s' % (SPLINE_REL, sha, SPLINE_SEMANTICS, SPLINE_TYPES))
+    return head + body + '\nend PygyroVerif.Gen.BasisFuns\n'
+
+
+def translate_eval1d(repo):
+    """`nu_find_span`, `nu_basis_funs_1st_der`, `nu_eval_spline_1d_scalar`; `nu_basis_funs` is the one of BasisFunsGen.lean"""
+    names = ['nu_basis_funs', 'nu_find_span', 'nu_basis_funs_1st_der', 'nu_eval_spline_1d_scalar']
+    tr, fns, sha = spline_functions(repo, names)
+    parts = [tr.function(f) for f in fns][1:]          # the first one only registers the signature of nu_basis_funs
+    head = ('/-\nGENERATED by harness/translate_pure.py from %s, functions %s (calling nu_basis_funs of BasisFunsGen.lean;\n'
+            'sha256 of the four sources %s) — do not edit.\n%s-/\nimport PygyroVerif.Generated.BasisFunsGen\n\n'
+            'set_option linter.unusedVariables false\nnamespace PygyroVerif.Gen.EvalSpline\nopen PygyroVerif.Gen.BasisFuns\n\n'
+            % (SPLINE_REL, ', '.join(names[1:]), sha, SPLINE_SEMANTICS))
+    return head + '\n'.join(parts) + '\nend PygyroVerif.Gen.EvalSpline\n'
+
+
 def main():
     ap = argparse.ArgumentParser()
     ap.add_argument('--repo', default=os.environ.get('PYGYRO_REPO', '/repo'))
     ap.add_argument('--out', default=DEFAULT_OUT)
     ap.add_argument('--quiet', action='store_true')
-    ap.add_argument('--only', choices=['procgrid', 'blocks', 'grid', 'findspan'], help='translate one target only')
+    ap.add_argument('--only', choices=['procgrid', 'blocks', 'grid', 'findspan', 'basisfuns', 'eval1d'], help='translate one target only')
     a = ap.parse_args()
     os.makedirs(a.out, exist_ok=True)
     status = 0
     for key, fname, fn in (('procgrid', 'ProcGridGen.lean', lambda: translate_process_grid(a.repo)[0]),
                            ('blocks', 'BlocksGen.lean', lambda: translate_layout_blocks(a.repo)),
                            ('grid', 'GridGen.lean', lambda: translate_grid(a.repo)),
-                           ('findspan', 'FindSpanGen.lean', lambda: translate_find_span(a.repo))):
+                           ('findspan', 'FindSpanGen.lean', lambda: translate_find_span(a.repo)),
+                           ('basisfuns', 'BasisFunsGen.lean', lambda: translate_basis_funs(a.repo)),
+                           ('eval1d', 'EvalSplineGen.lean', lambda: translate_eval1d(a.repo))):
         if a.only and a.only != key:
             continue
         path = os.path.join(a.out, fname)
